@@ -239,6 +239,7 @@ class Interp:
         self.unresolved: list[str] = []
         self.pyd_events: list = []         # lossy pydantic coercions observed
         self.entropy: list = []            # (what, site) ambient/entropy sources touched
+        self.sym_by_uid: dict = {}
 
     # -- choices -----------------------------------------------------------
     def choose(self, what: str) -> bool:
@@ -422,13 +423,24 @@ class Interp:
             o = self.eval(t.value, env)
             k = self.eval(t.slice, env)
             if isinstance(o, ADict):
-                o.items[_key(k)] = v
+                o.items[self.dict_key(o, k, env.mod.site(t))] = v
             elif isinstance(o, AList) and isinstance(k, int):
                 o.items[k] = v
             else:
                 raise Unsupported(f"subscript store at {env.mod.site(t)}")
         else:
             raise Unsupported(f"assignment target {type(t).__name__}")
+
+    def dict_key(self, d: ADict, k, site):
+        """Key under which `k` is stored/looked up.  Two different opaque literals may or may not be
+        equal: the decision is forked, since the generated text then depends on literal content."""
+        kk = _key(k)
+        if isinstance(k, Sym) and k.kind != "ident" and kk not in d.items:
+            for other in list(d.items):
+                if isinstance(other, tuple) and other and other[0] == "sym" and other != kk:
+                    if self.choose(f"equal literals as dict keys ({k.src}) at {site}"):
+                        return other
+        return kk
 
     def st_If(self, st, env):
         if self.truthy(self.eval(st.test, env), env.mod.site(st.test) + " " + norm(st.test)):
@@ -775,7 +787,7 @@ class Interp:
             except IndexError:
                 raise RaiseSig("IndexError", site)
         if isinstance(o, ADict):
-            kk = _key(k)
+            kk = self.dict_key(o, k, site)
             if kk in o.items:
                 return o.items[kk]
             raise RaiseSig("KeyError", site)
@@ -810,7 +822,8 @@ class Interp:
                     raise Unsupported("dict unpacking of non-dict")
                 d.update(o.items)
             else:
-                d[_key(self.eval(k, env))] = self.eval(v, env)
+                tmp = ADict(d)
+                d[self.dict_key(tmp, self.eval(k, env), env.mod.site(n))] = self.eval(v, env)
         return ADict(d)
 
     def ev_IfExp(self, n, env):
@@ -997,7 +1010,7 @@ class Interp:
         if isinstance(container, (ASet, AList)):
             return any(self.equal(x, y, site) for y in container.items)
         if isinstance(container, ADict):
-            return _key(x) in container.items
+            return self.dict_key(container, x, site) in container.items
         if isinstance(container, Tmpl) and isinstance(x, Tmpl) and container.is_literal() and x.is_literal():
             return x.text() in container.text()
         raise Unsupported(f"membership in {type(container).__name__} at {site}")
@@ -1033,6 +1046,13 @@ class Interp:
             return True
         raise Unsupported(f"truthiness of {type(v).__name__} at {what}")
 
+    def _unkey(self, k):
+        if isinstance(k, str):
+            return Tmpl.lit(k)
+        if isinstance(k, tuple) and k and k[0] == "sym":
+            return _SYMS.get(k[1], k)
+        return k
+
     def iterate(self, v, site):
         if isinstance(v, AList):
             return list(v.items)
@@ -1040,7 +1060,7 @@ class Interp:
             # iteration order of a set of str depends on PYTHONHASHSEED
             return [_Tagged(x, site) for x in v.items] if len(v.items) > 1 else list(v.items)
         if isinstance(v, ADict):
-            return [Tmpl.lit(k) if isinstance(k, str) else k for k in v.items]
+            return [self._unkey(k) for k in v.items]
         if isinstance(v, _MapIter):
             return v.items
         raise Unsupported(f"iteration over {type(v).__name__} at {site}")
@@ -1154,7 +1174,17 @@ class Interp:
             elif isinstance(st, ast.FunctionDef):
                 decos = [dotted(d.func if isinstance(d, ast.Call) else d) for d in st.decorator_list]
                 if any(d in ("validator", "root_validator", "field_validator", "model_validator") for d in decos):
-                    raise Unsupported(f"pydantic validator {cv.name}.{st.name} is not modelled")
+                    # a validator that returns its value parameter unchanged on every path is the identity
+                    vparam = st.args.args[1].arg if len(st.args.args) > 1 else None
+                    rets = [r for r in ast.walk(st) if isinstance(r, ast.Return)]
+                    ident = vparam is not None and rets and all(isinstance(r.value, ast.Name) and r.value.id == vparam for r in rets)
+                    targets = []
+                    for d in st.decorator_list:
+                        if isinstance(d, ast.Call):
+                            targets += [a.value for a in d.args if isinstance(a, ast.Constant)]
+                    if not ident:
+                        self.pyd_events.append(("validator-rewrite", f"{cv.mod.rel}:{cv.name}.{'/'.join(map(str, targets)) or '*'}",
+                                                cv.mod.site(st), st.name))
         return fields, smart
 
     def model_construct(self, cv: ClassVal, args, kwargs, site):
@@ -1308,22 +1338,38 @@ class Interp:
             raise Unsupported(f"len of {type(v).__name__} at {site}")
         if name == "sorted":
             v = args[0]
-            if kwargs.get("key") is not None:
-                raise Unsupported(f"sorted(key=...) at {site}")
             items = v.items if isinstance(v, (AList, ASet)) else self.iterate(v, site)
             items = [x.value if isinstance(x, _Tagged) else x for x in items]
-            keys = []
-            for x in items:
-                if isinstance(x, Sym) and x.kind == "ident":
-                    keys.append(x.name)
-                elif isinstance(x, Tmpl) and x.is_literal():
-                    keys.append(x.text())
-                elif isinstance(x, int):
-                    keys.append(x)
-                else:
-                    raise Unsupported(f"sorted() over values whose order is unknown ({x!r}) at {site}")
-            order = sorted(range(len(items)), key=lambda i: keys[i], reverse=bool(kwargs.get("reverse")))
-            return AList([items[i] for i in order], "list")
+            keyf = kwargs.get("key")
+            kvals = [self.apply(keyf, [x], {}, site) for x in items] if keyf is not None else list(items)
+
+            def concrete(k):
+                if isinstance(k, Sym) and k.kind == "ident":
+                    return (0, k.name)
+                if isinstance(k, Tmpl) and k.is_literal():
+                    return (0, k.text())
+                if isinstance(k, Tmpl) and all(isinstance(p_, Hole) and p_.sym.kind == "ident" for p_ in k.parts) and len(k.parts) == 1:
+                    return (0, k.parts[0].sym.name)
+                if isinstance(k, int) and not isinstance(k, bool):
+                    return (1, k)
+                return None
+            keys = [concrete(k) for k in kvals]
+            rev = bool(kwargs.get("reverse"))
+            if all(k is not None for k in keys) and len({k[0] for k in keys}) <= 1:
+                order = sorted(range(len(items)), key=lambda i: keys[i], reverse=rev)
+                return AList([items[i] for i in order], "list")
+            if len(items) > 4:
+                raise Unsupported(f"sorted() over {len(items)} values whose order depends on literal content at {site}")
+            # order depends on opaque literal content: fork on each needed comparison
+            out = []
+            for i, x in enumerate(items):
+                pos = len(out)
+                for j, (y, _) in enumerate(out):
+                    if self.choose(f"sorts-before({_describe(kvals[i])}, {_describe(y)}) at {site}") != rev:
+                        pos = j
+                        break
+                out.insert(pos, (kvals[i], x))
+            return AList([x for _, x in out], "list")
         if name in ("list", "tuple"):
             if not args:
                 return AList([], name)
@@ -1507,12 +1553,15 @@ class Interp:
             raise Unsupported(f"{recv.pytype}.{name} at {site}")
         if isinstance(recv, ADict):
             if name == "get":
-                k = _key(args[0])
+                k = self.dict_key(recv, args[0], site)
                 return recv.items.get(k, args[1] if len(args) > 1 else None)
+            if name == "setdefault":
+                k = self.dict_key(recv, args[0], site)
+                return recv.items.setdefault(k, args[1] if len(args) > 1 else None)
             if name == "items":
-                return AList([AList([Tmpl.lit(k) if isinstance(k, str) else k, v], "tuple") for k, v in recv.items.items()])
+                return AList([AList([self._unkey(k), v], "tuple") for k, v in recv.items.items()])
             if name == "keys":
-                return AList([Tmpl.lit(k) if isinstance(k, str) else k for k in recv.items])
+                return AList([self._unkey(k) for k in recv.items])
             if name == "values":
                 return AList(list(recv.items.values()))
             raise Unsupported(f"dict.{name} at {site}")
@@ -1526,6 +1575,37 @@ class Interp:
 
     def external(self, f: "ExtVal", args, kwargs, site):
         q = f"{f.module}.{f.attr}" if f.attr else f.module
+        if q in ("json.dumps",) and args:
+            v = args[0]
+            if isinstance(v, Sym):
+                return Tmpl((Hole(v, "json", site),))
+            if isinstance(v, Tmpl) and v.is_literal():
+                import json as _json
+                return Tmpl.lit(_json.dumps(v.text()))
+        if q in ("shlex.quote", "pprint.pformat", "reprlib.repr") and args and isinstance(args[0], Sym):
+            return Tmpl((Hole(args[0], q, site),))
+        if q in ("textwrap.dedent", "inspect.cleandoc") and args and isinstance(args[0], Tmpl) and args[0].is_literal():
+            import textwrap as _tw
+            return Tmpl.lit(_tw.dedent(args[0].text()))
+        if q in ("textwrap.indent",) and len(args) >= 2 and isinstance(args[0], Tmpl) and isinstance(args[1], Tmpl) \
+                and args[1].is_literal():
+            pre = args[1].text()
+            parts, at_start = [], True
+            for p_ in args[0].parts:
+                if isinstance(p_, str):
+                    for ch in p_:
+                        if at_start and ch != "\n":
+                            parts.append(pre)
+                            at_start = False
+                        parts.append(ch)
+                        if ch == "\n":
+                            at_start = True
+                else:
+                    if at_start:
+                        parts.append(pre)
+                        at_start = False
+                    parts.append(p_)
+            return Tmpl(parts, args[0].nondet)
         self.unresolved.append(f"{q} at {site}")
         raise Unsupported(f"call to external {q} at {site} is not modelled")
 
@@ -1638,15 +1718,27 @@ def _load(t):
     return t2
 
 
+def _describe(v):
+    if isinstance(v, Sym):
+        return v.src
+    return repr(v)[:40]
+
+
 def _isnum(v):
     return isinstance(v, (int, float)) and not isinstance(v, bool)
+
+
+_SYMS: dict = {}
 
 
 def _key(k):
     if isinstance(k, Tmpl):
         return k.text()
     if isinstance(k, Sym):
-        return ("sym", k.uid) if k.kind != "ident" else k.name
+        if k.kind == "ident":
+            return k.name
+        _SYMS[k.uid] = k
+        return ("sym", k.uid)
     return k
 
 
